@@ -6,10 +6,14 @@
    PROVED about the representation model M2 (HeapFrame.v), for every history of well-typed operations, every oracle and both address parities:
    C01_representation_frame - an operation that returns leaves every handle it is not applied to unchanged AND that handle reads exactly the same
    bytes afterwards, whatever shares its buffer (clones, split halves, frozen halves of a BytesMut that keeps writing, reallocation, reclaim).
-   What remains checked by execution only (kind model-refinement) is that the handle(s) an operation IS applied to get the contents M1 says. *)
+   C01_representation_refines_reference (RefineM1.v) - the other half, and with it the whole property on M2: with abs s = "every handle of s as an
+   independent value (its kind and the bytes it reads)", every operation of the 41 that returns takes abs s to exactly the state M1 prescribes
+   (Spec.sstep), with the same return value, for every reachable state of every history, provided the allocator never delivers more than isize::MAX
+   bytes (oracle_sane; the invariant hsz of SizeInv.v).  Handles the operation is applied to, handles it creates, and all others are covered.
+   What remains checked by execution only is the tie of M2 to the code (engine E1: contents of EVERY live handle after EVERY step). *)
 From stdpp Require Import gmap.
 From Coq Require Import NArith.
-From BV Require Import Base Heap Spec SpecLaws HeapWF HeapWFOps HeapWFMain HeapFrame.
+From BV Require Import Base BufMut Heap Spec SpecLaws HeapWF HeapWFOps HeapWFMain HeapFrame SizeInv RefineM1.
 
 Theorem C01_frame : forall cap uniq o s s' r h', sstep cap uniq o s = SOk s' r -> h' ∉ touched o -> (h' < snext s)%positive ->
   vals s' !! h' = vals s !! h'.
@@ -32,8 +36,40 @@ Proof. exact m2_frame_reachable. Qed.
 Theorem C01_clean_panic_changes_nothing : forall orc o s s' e', HeapPanic.clean_panic_op o = true -> run_op orc o s = PANIC s' e' -> s' = s.
 Proof. exact m2_frame_panic. Qed.
 
+(* M2 refines M1: every step, every reachable state *)
+Theorem C01_representation_refines_reference : forall orcs n s o r s' e', (forall i, oracle_sane (orcs i)) -> reach orcs n s -> op_ok s o ->
+  run_op (orcs n) o s = OK r s' e' -> exists uniq, sstep (cap_of s o) uniq o (abs s) = SOk (abs s') r.
+Proof. exact m2_refines_m1_reachable. Qed.
+Theorem C01_size_invariant : forall orcs n s, (forall i, oracle_sane (orcs i)) -> reach orcs n s ->
+  forall k st, sts s !! k = Some st -> s_cls st = SHeap \/ s_cls st = SDangling -> (s_size st <= isize_max)%N.
+Proof. exact reach_hsz. Qed.
+(* where M1 says the call is out of contract (whatever uniqueness bit), M2 does not return *)
+Corollary C01_contract_violation_does_not_return : forall orcs n s o r s' e', (forall i, oracle_sane (orcs i)) -> reach orcs n s -> op_ok s o ->
+  (forall uniq, sstep (cap_of s o) uniq o (abs s) = SPanic) -> run_op (orcs n) o s <> OK r s' e'.
+Proof. intros orcs n s o r s' e' Ho Hr Hok Hp E. destruct (m2_refines_m1_reachable orcs n s o r s' e' Ho Hr Hok E) as [u Hu]. by rewrite Hp in Hu. Qed.
+(* non-vacuity: a concrete history through with_capacity, extend_from_slice, split_to; the abstraction is what M1 computes *)
+Example C01_refinement_nonvacuous :
+  let orc := {| or_caps := [] |} in
+  match run_op orc (OMWithCapacity 8) (hst0 false) with
+  | OK (RH h) s1 _ =>
+      match run_op orc (OMExtend h [1; 2; 3]%N) s1 with
+      | OK _ s2 _ =>
+          match run_op orc (OMSplitTo h 2) s2 with
+          | OK (RH h2) s3 _ => vals (abs s3) !! h = Some {| sv_kind := KM; sv_bytes := [3]%N |} /\ vals (abs s3) !! h2 = Some {| sv_kind := KM; sv_bytes := [1; 2]%N |}
+          | _ => False
+          end
+      | _ => False
+      end
+  | _ => False
+  end.
+Proof. vm_compute. split; reflexivity. Qed.
+
 Print Assumptions C01_frame.
 Print Assumptions C01_bytes_immutable.
 Print Assumptions C01_nonvacuous.
 Print Assumptions C01_representation_frame.
 Print Assumptions C01_clean_panic_changes_nothing.
+Print Assumptions C01_representation_refines_reference.
+Print Assumptions C01_size_invariant.
+Print Assumptions C01_contract_violation_does_not_return.
+Print Assumptions C01_refinement_nonvacuous.
